@@ -41,6 +41,10 @@ pub struct PairCfg {
     pub sched: String,
     /// none | offerer | answerer: who starts a second offer/answer round on the established connection
     pub reneg: String,
+    /// per-side values of the options that need not match between the endpoints ("" / None = same as side A)
+    pub mux_b: String,
+    pub compat_b: String,
+    pub latching_b: Option<bool>,
     /// short failure-detection timers (C17 loss scenarios); None = library defaults
     pub fast_timers: bool,
     /// small SCTP send buffer so that a sender can be blocked (BlockedSender scenarios)
@@ -65,6 +69,9 @@ impl Default for PairCfg {
             offerer: "A".into(),
             sched: "plain".into(),
             reneg: "none".into(),
+            mux_b: String::new(),
+            compat_b: String::new(),
+            latching_b: None,
             fast_timers: false,
             small_sctp_buffer: false,
             flap_timers: false,
@@ -96,6 +103,19 @@ impl PairCfg {
         c.offerer = s("offerer", &c.offerer);
         c.sched = s("sched", &c.sched);
         c.reneg = s("reneg", &c.reneg);
+        // per-side form of the record: muxA/muxB, compatA/compatB, latchingA/latchingB
+        if v.get("muxA").is_some() {
+            c.mux = s("muxA", &c.mux);
+            c.mux_b = s("muxB", &c.mux);
+        }
+        if v.get("compatA").is_some() {
+            c.compat = s("compatA", &c.compat);
+            c.compat_b = s("compatB", &c.compat);
+        }
+        if v.get("latchingA").is_some() {
+            c.latching = b("latchingA", c.latching);
+            c.latching_b = Some(b("latchingB", c.latching));
+        }
         c.fast_timers = b("fast_timers", c.fast_timers);
         c.small_sctp_buffer = b("small_sctp_buffer", c.small_sctp_buffer);
         c.flap_timers = b("flap_timers", c.flap_timers);
@@ -115,6 +135,9 @@ impl PairCfg {
         }
         json!({"mode": self.mode, "media": media, "bundle": self.bundle, "mux": self.mux, "ice": self.ice,
                "latching": self.latching, "compat": self.compat, "offerer": self.offerer, "sched": self.sched, "reneg": self.reneg,
+               "muxA": self.mux, "muxB": if self.mux_b.is_empty() { &self.mux } else { &self.mux_b },
+               "compatA": self.compat, "compatB": if self.compat_b.is_empty() { &self.compat } else { &self.compat_b },
+               "latchingA": self.latching, "latchingB": self.latching_b.unwrap_or(self.latching),
                "fast_timers": self.fast_timers, "small_sctp_buffer": self.small_sctp_buffer})
     }
 
@@ -137,17 +160,20 @@ impl PairCfg {
             "maxcompat" => BundlePolicy::MaxCompat,
             _ => BundlePolicy::Balanced,
         };
-        c.rtcp_mux_policy = if self.mux == "negotiate" {
+        let mux = if side == "B" && !self.mux_b.is_empty() { &self.mux_b } else { &self.mux };
+        let compat = if side == "B" && !self.compat_b.is_empty() { &self.compat_b } else { &self.compat };
+        let latching = if side == "B" { self.latching_b.unwrap_or(self.latching) } else { self.latching };
+        c.rtcp_mux_policy = if mux == "negotiate" {
             RtcpMuxPolicy::Negotiate
         } else {
             RtcpMuxPolicy::Require
         };
-        c.sdp_compatibility = if self.compat == "LegacySip" {
+        c.sdp_compatibility = if compat == "LegacySip" {
             SdpCompatibilityMode::LegacySip
         } else {
             SdpCompatibilityMode::Standard
         };
-        c.enable_latching = self.latching;
+        c.enable_latching = latching;
         c.bind_ip = Some("127.0.0.1".into());
         c.disable_ipv6 = true;
         match self.ice.as_str() {
